@@ -147,6 +147,10 @@ func (p *parser) parse() (*Pat, error) {
 			pt.RestTail = true
 		}
 	}
+	// field paths do not distinguish a pointer from its pointee
+	if strings.HasPrefix(pt.Name, "field:") && len(pt.Args) == 1 && pt.Args[0].Kind == 'o' && pt.Args[0].Name == "deref" && len(pt.Args[0].Args) == 1 {
+		pt.Args[0] = pt.Args[0].Args[0]
+	}
 	return pt, nil
 }
 
